@@ -468,7 +468,7 @@ func c03units(tier string) []mc.Unit {
 	us = append(us, mc.Unit{Name: "placeholder-values", Serial: true, Weight: 30, Run: func(r *mc.Recorder) {
 		memo := &c3memo{first: map[string]string{}}
 		var cnt int64
-		vals := []string{".", "..", "-", "N/A", "null", "none", "0", "1", "?", "*", "unknown", "Unknown.", "a.", ".a", "x y", "//x", "ORIGIN", "FEATURES", "LOCUS"}
+		vals := []string{"", ".", "..", "-", "N/A", "null", "none", "0", "1", "?", "*", "unknown", "Unknown.", "a.", ".a", "x y", "//x", "ORIGIN", "FEATURES", "LOCUS"}
 		mk := func() poly.Sequence {
 			var s poly.Sequence
 			s.Sequence = gbSeq(70, 6)
